@@ -3,6 +3,7 @@ package props
 import (
 	"go/token"
 	"go/types"
+	"strings"
 
 	"mrocheck/an"
 
@@ -183,7 +184,14 @@ func ruleX6(c *an.Ctx) {
 			if !good {
 				detail = "the id of a fork-id part is stored through " + why + ": sibling forks of an outer run-time dimension still share this part, inherit the id and are never expanded for their own element (their jobs never run, the pipestance still completes)"
 			}
-			c.Check("X6", "shared-part-resolved-through-private-copy(Id="+an.StablePath(st.Val)+")@"+an.FnName(m), st.Pos(), good, detail)
+			idKind := "?"
+			if mi, ok := st.Val.(*ssa.MakeInterface); ok {
+				idKind = mi.X.Type().String()
+				if i := strings.LastIndexAny(idKind, "./"); i >= 0 {
+					idKind = idKind[i+1:]
+				}
+			}
+			c.Check("X6", "shared-part-resolved-through-private-copy(Id:"+idKind+")@"+an.FnName(root), st.Pos(), good, detail)
 		}
 	}
 	c.Floor("X6", "in-place resolutions of a fork-id part in expandForkFromObj", n, 2)
